@@ -11,6 +11,7 @@ package main
 
 import (
 	"context"
+	"math"
 	"time"
 
 	"github.com/mutagen-io/mutagen/pkg/multiplexing"
@@ -30,12 +31,14 @@ type scriptIn struct {
 	Bufs  int      `json:"bufs"`
 	Steps []step   `json:"steps"`
 	Kinds []string `json:"kinds,omitempty"` // export information from the model (which state-preserving calls occur)
+	IDTop int      `json:"idtop,omitempty"` // >0: run at the top of the identifier space; the value is the recorded number of math.MaxUint64
 }
 
 type pendingOpen struct {
 	id     int
 	cancel context.CancelFunc
 	ch     chan callResult
+	done   chan struct{}
 }
 
 const (
@@ -192,14 +195,17 @@ func (x *scriptRun) skip(st step, why string) {
 func (x *scriptRun) open(e int) {
 	before := x.r.openCount(e)
 	ctx, cancel := context.WithCancel(context.Background())
-	po := &pendingOpen{cancel: cancel, ch: make(chan callResult, 1)}
+	po := &pendingOpen{cancel: cancel, ch: make(chan callResult, 1), done: make(chan struct{})}
 	x.r.add(map[string]any{"ev": "Call", "e": e, "op": "open", "s": 0, "k": 0, "d": []int{}, "t": nowMs()})
 	m := x.p.mux[e]
 	go func() {
 		s, err := m.OpenStream(ctx)
 		po.ch <- callResult{stream: s, err: err}
+		close(po.done)
 	}()
-	waitUntil(opWatchdog, func() bool { return x.r.openCount(e) > before || isClosedChan(m.Closed()) })
+	waitUntil(opWatchdog, func() bool {
+		return x.r.openCount(e) > before || isClosedChan(m.Closed()) || isClosedChan(po.done)
+	})
 	po.id = x.r.openID(e, before)
 	if po.id == 0 {
 		// no open message: the call must have failed at once
@@ -217,7 +223,7 @@ func (x *scriptRun) finishOpen(e int, po *pendingOpen, wait time.Duration) bool 
 	case res := <-po.ch:
 		sid := 0
 		if res.stream != nil {
-			sid = streamID(res.stream)
+			sid = x.r.sid(streamIDu(res.stream))
 			x.streams[e][sid] = res.stream
 		}
 		x.r.add(map[string]any{"ev": "Ret", "e": e, "op": "open", "s": po.id, "sid": sid, "k": 0, "n": 0,
@@ -240,7 +246,7 @@ func (x *scriptRun) accept(e int) {
 	})
 	sid := 0
 	if res.stream != nil {
-		sid = streamID(res.stream)
+		sid = x.r.sid(streamIDu(res.stream))
 		x.streams[e][sid] = res.stream
 	}
 	x.r.add(map[string]any{"ev": "Ret", "e": e, "op": "accept", "s": sid, "sid": sid, "k": 0, "n": 0,
@@ -301,7 +307,7 @@ func (x *scriptRun) recv(e int, wait time.Duration) bool {
 	if m == nil {
 		return false
 	}
-	x.r.add(map[string]any{"ev": "Dlv", "e": e, "k": m.Kind, "s": int(m.Stream), "a": int(clamp(m.Arg)),
+	x.r.add(map[string]any{"ev": "Dlv", "e": e, "k": m.Kind, "s": x.r.sid(m.Stream), "a": int(clamp(m.Arg)),
 		"d": ints(m.Data), "settled": settled, "t": nowMs()})
 	return true
 }
@@ -334,9 +340,25 @@ func runScript(cid string, in scriptIn) *recorder {
 	if in.Bufs == 0 { // unspecified (negative values are passed on to exercise Configuration.normalize)
 		in.Bufs = 5
 	}
-	r.add(map[string]any{"ev": "Begin", "begin": true, "mode": "script", "w": in.W, "b": in.B, "in": in})
+	begin := map[string]any{"ev": "Begin", "begin": true, "mode": "script", "w": in.W, "b": in.B, "in": in}
+	for _, st := range in.Steps {
+		if st.Op == "inject" {
+			begin["corrupt"] = true // the carrier delivers crafted messages: no C23/C24 obligation, conformance counters only
+		}
+	}
+	if in.IDTop > 0 {
+		// recorded identifier n stands for math.MaxUint64 - (IDTop - n); IDTop must be odd
+		r.idBase = math.MaxUint64 - uint64(in.IDTop)
+		begin["idmax"] = in.IDTop
+	}
+	r.add(begin)
 	x := &scriptRun{r: r, p: newPair(r.tap(true, false), true, 0, in.W, in.B, in.Bufs, 0)}
 	defer x.p.shutdown()
+	if in.IDTop > 0 {
+		x.p.mux[0].VerifSetNextOutboundStreamIdentifier(r.idBase + 1)
+		x.p.mux[1].VerifSetNextOutboundStreamIdentifier(r.idBase + 2)
+	}
+	injected := false
 	for e := 0; e < 2; e++ {
 		x.streams[e] = map[int]*multiplexing.Stream{}
 		x.closed[e] = map[int]bool{}
@@ -417,6 +439,16 @@ func runScript(cid string, in scriptIn) *recorder {
 			default:
 				x.closeOp(e, st.S, st.Op)
 			}
+		case "inject":
+			// a crafted message reaches endpoint e as if its peer had written it (the carrier is at fault, not the peer)
+			kinds := []string{"accept", "close", "cw", "inc", "data", "open"}
+			m := encodeMsg(kinds[st.N%len(kinds)], r.idBase+uint64(st.S), 1, nil)
+			if m.Kind == "data" {
+				m = encodeMsg("data", r.idBase+uint64(st.S), 1, []byte{7})
+			}
+			x.p.l.dir[1-e].inject(m)
+			injected = true
+			x.deliverAll()
 		case "recv":
 			if !x.recv(e, 60*time.Millisecond) {
 				x.skip(st, "nothing in flight")
@@ -502,6 +534,6 @@ func runScript(cid string, in scriptIn) *recorder {
 		}
 	}
 	x.deliverAll()
-	r.add(x.p.endRecord(false))
+	r.add(x.p.endRecord(injected)) // a corrupted carrier ends the C24 obligation like an explicit close
 	return r
 }
